@@ -250,7 +250,7 @@ def _matchers(ck, P, cfg):
     # the early list is consulted for remote events before they are processed
     f = P.fn("process_msg")
     cs = list(f.calls("check_early_anti_messages"))
-    disp = list(f.calls("common_msg_process"))
+    disp = Q.calls_via(P, f, "common_msg_process")
     if len(cs) == 1 and disp and f.cfg.dominates(cs[0], disp[0]) is False:
         # the call sits behind `flags && early_antis &&`: it cannot dominate; require that every path to the dispatch that has both true passes it
         pass
